@@ -11,6 +11,7 @@ package cluster
 //   TestVerifC19Eq pure: isDataEqual / isKeyValueEqual on generated maps.
 
 import (
+	"context"
 	"encoding/json"
 	"fmt"
 	"io/ioutil"
@@ -47,11 +48,18 @@ type c19Input struct {
 	Seq       bool       `json:"seq"`       // wait for the delivery of every change before the next write
 	PullMs    int        `json:"pullMs"`    // pullInterval
 	ConsumeUs int        `json:"consumeUs"` // consumer sleeps this long after every snapshot
-	Fault     string     `json:"fault"`     // "" | "restart": stop the etcd server before write faultAt, keep it down for outageMs, start it again
+	Fault     string     `json:"fault"`     // "" | "restart": stop the etcd server before write faultAt, keep it down for outageMs, start it again | "compact": compact the store at its current revision, then restart (the syncer's watcher resumes below the compacted revision and is cancelled by etcd with ErrCompacted)
 	FaultAt   int        `json:"faultAt"`
-	OutageMs  int        `json:"outageMs"`  // how long the server stays down
-	ReqMs     int        `json:"reqMs"`     // > 0: the syncer's cluster handle uses this request timeout (so that pulls FAIL during the outage)
+	OutageMs  int        `json:"outageMs"` // how long the server stays down
+	HoldAfter int        `json:"holdAfter"`
+	HoldMs    int        `json:"holdMs"`
+	ReqMs     int        `json:"reqMs"` // > 0: the syncer's cluster handle uses this request timeout (so that pulls FAIL during the outage)
 }
+
+// (continued: c19Input) HoldAfter / HoldMs: slow consumer. The consumer stops reading after it has received
+// HoldAfter snapshots and resumes HoldMs after the last write (lower bounds only): meanwhile the syncer
+// fills the 10-slot channel and blocks in its send; once the consumer drains, the last snapshot it
+// receives must be the final content, without any further write.
 
 type c19Obs struct {
 	Snaps      [][][2]string `json:"snaps"` // each snapshot: sorted [key,value] pairs, keys relative to the root
@@ -60,6 +68,7 @@ type c19Obs struct {
 	WriteErrs  int           `json:"writeErrs"`
 	Late       int           `json:"late"` // snapshots that arrived after convergence was observed
 	FaultDone  bool          `json:"faultDone"`
+	CancelSeen bool          `json:"cancelSeen"` // compact fault: a canary watcher created right after the syncer's (same client, key, options) received Canceled with a compact revision (diagnostics / tag only)
 	Skipped    string        `json:"skipped,omitempty"`
 	ConvergeMs int64         `json:"convergeMs"` // diagnostics only (not judged)
 	ElapsedMs  int64         `json:"elapsedMs"`  // diagnostics only (not judged)
@@ -186,10 +195,18 @@ func c19Exec(raw json.RawMessage) interface{} {
 	}
 	var mu sync.Mutex
 	var snaps []map[string]string
+	gate := make(chan struct{})
+	var gateOnce sync.Once
+	openGate := func() { gateOnce.Do(func() { close(gate) }) }
+	defer openGate()
 	push := func(m map[string]string) {
 		mu.Lock()
 		snaps = append(snaps, m)
+		n := len(snaps)
 		mu.Unlock()
+		if in.HoldMs > 0 && n == in.HoldAfter {
+			<-gate // the consumer is away
+		}
 		if in.ConsumeUs > 0 {
 			time.Sleep(time.Duration(in.ConsumeUs) * time.Microsecond)
 		}
@@ -264,6 +281,30 @@ func c19Exec(raw json.RawMessage) interface{} {
 		}()
 	}
 
+	// compact fault: a canary watcher with the options of syncer.watch, created after the syncer's
+	// watcher, so it is resumed (and cancelled) under the same conditions
+	var cancelSeen int32
+	if in.Fault == "compact" {
+		if cl, cerr := c.getClient(); cerr == nil {
+			opts := make([]clientv3.OpOption, 0, 1)
+			if prefix {
+				opts = append(opts, clientv3.WithPrefix())
+			}
+			time.Sleep(300 * time.Millisecond) // let the syncer's watch get registered first
+			cw := clientv3.NewWatcher(cl)
+			cch := cw.Watch(context.Background(), key, opts...)
+			defer cw.Close()
+			go func() {
+				for resp := range cch {
+					if resp.Canceled && resp.CompactRevision != 0 {
+						atomic.StoreInt32(&cancelSeen, 1)
+					}
+				}
+			}()
+			time.Sleep(200 * time.Millisecond)
+		}
+	}
+
 	rootedLocal := func() map[string]string {
 		m := map[string]string{}
 		for k, v := range c19Restricted(local, prefix, in.Key) {
@@ -293,9 +334,21 @@ func c19Exec(raw json.RawMessage) interface{} {
 	if in.PullMs >= 1000 {
 		time.Sleep(300 * time.Millisecond) // let the watch get registered
 	}
+	if in.HoldMs > 0 && in.HoldAfter > 0 {
+		// the consumer must be away before the writes start
+		waitUntil(func() bool { return count() >= in.HoldAfter }, 5*time.Second)
+	}
 	for i, w := range in.Writes {
 		if in.Fault == "restart" && i == in.FaultAt {
 			obs.FaultDone = c19Restart(c, time.Duration(in.OutageMs)*time.Millisecond)
+		}
+		if in.Fault == "compact" && i == in.FaultAt {
+			obs.FaultDone = c19CompactRestart(c, time.Duration(in.OutageMs)*time.Millisecond)
+			// the resumed watchers are cancelled shortly after the server answers again; the wait only
+			// makes the following writes meet the re-created watcher (a write that meets no watcher is
+			// repaired by the ticker, which is fine too)
+			waitUntil(func() bool { return atomic.LoadInt32(&cancelSeen) == 1 }, 10*time.Second)
+			time.Sleep(200 * time.Millisecond)
 		}
 		if w.PauseUs > 0 {
 			time.Sleep(time.Duration(w.PauseUs) * time.Microsecond)
@@ -310,6 +363,10 @@ func c19Exec(raw json.RawMessage) interface{} {
 		if in.Seq && !c19MapEq(before, rootedLocal()) {
 			waitUntil(func() bool { return count() > n0 }, 15*time.Second)
 		}
+	}
+	if in.HoldMs > 0 {
+		time.Sleep(time.Duration(in.HoldMs) * time.Millisecond)
+		openGate() // the consumer comes back and drains the channel
 	}
 	// convergence: no further writes; the view must reach the final content
 	want := rootedLocal()
@@ -326,6 +383,7 @@ func c19Exec(raw json.RawMessage) interface{} {
 	}
 	time.Sleep(linger)
 	obs.Late = count() - nConv
+	obs.CancelSeen = atomic.LoadInt32(&cancelSeen) == 1
 	sy.Close()
 	select {
 	case <-closed:
@@ -371,6 +429,31 @@ func c19Restart(c *cluster, outage time.Duration) bool {
 		time.Sleep(50 * time.Millisecond)
 	}
 	return false
+}
+
+// c19CompactRestart compacts the store at its current revision and restarts the server. A watcher
+// that was created before at least one later write and has received no event since resumes, after
+// the restart, from its creation revision, which is now below the compacted revision: etcd answers
+// the resumed watch with Canceled + CompactRevision (ErrCompacted) — the `resp.Canceled` branch of
+// syncer.run. (A watcher that stays connected is never cancelled by a compaction.)
+func c19CompactRestart(c *cluster, outage time.Duration) bool {
+	cl, err := c.getClient()
+	if err != nil {
+		return false
+	}
+	ctx, cancel := context.WithTimeout(context.Background(), 10*time.Second)
+	resp, err := cl.Get(ctx, "/verif/ping")
+	cancel()
+	if err != nil {
+		return false
+	}
+	ctx, cancel = context.WithTimeout(context.Background(), 10*time.Second)
+	_, err = cl.Compact(ctx, resp.Header.Revision, clientv3.WithCompactPhysical())
+	cancel()
+	if err != nil {
+		return false
+	}
+	return c19Restart(c, outage)
 }
 
 var c19Keys = []string{"p/a", "p/b", "p/ab", "p", "pp", "q/a", "p/a/x"}
@@ -445,6 +528,55 @@ func c19GenOutage(r *verifh.Rand) interface{} {
 	return in
 }
 
+// c19GenCompact: writes outside the watched key / prefix (the watcher receives nothing, so it would
+// resume from its creation revision), then compaction + restart, then writes inside.
+func c19GenCompact(r *verifh.Rand) interface{} {
+	in := c19Input{Mode: r.Pick("sync", "raw", "prefix", "rawprefix"), PullMs: r.PickInt(20, 1000, 1000, 10000)}
+	in.Key = "p/a"
+	if in.Mode == "prefix" || in.Mode == "rawprefix" {
+		in.Key = "p/"
+	}
+	if r.Bool(2, 3) {
+		in.Init = []c19Write{{Subs: []c19Sub{{Op: "put", K: "p/a", V: "1"}}}}
+	}
+	vals := []string{"2", "3", "1", ""}
+	for k, n := 0, r.Range(3, 5); k < n; k++ {
+		in.Writes = append(in.Writes, c19Write{Subs: []c19Sub{{Op: "put", K: r.Pick("q/a", "pp"), V: vals[r.Intn(len(vals))]}}})
+	}
+	in.Fault = "compact"
+	in.FaultAt = len(in.Writes)
+	in.OutageMs = r.PickInt(20, 50, 200)
+	local := map[string]string{"p/a": "1"}
+	for k, n := 0, r.Range(1, 6); k < n; k++ {
+		w := c19GenWrite(r, local)
+		w.PauseUs = r.PickInt(0, 0, 500, 3000)
+		c19ApplyLocal(local, w)
+		in.Writes = append(in.Writes, w)
+	}
+	return in
+}
+
+// c19GenHold: a consumer that is away while more distinct states are produced than the channel
+// buffers (10), for several pull intervals beyond the last write; then it comes back.
+func c19GenHold(r *verifh.Rand) interface{} {
+	in := c19Input{Mode: r.Pick("sync", "raw", "prefix", "rawprefix"), PullMs: r.PickInt(10, 20, 20)}
+	in.Key = "p/a"
+	if in.Mode == "prefix" || in.Mode == "rawprefix" {
+		in.Key = "p/"
+	}
+	in.Init = []c19Write{{Subs: []c19Sub{{Op: "put", K: "p/a", V: "0"}}}}
+	for k, n := 1, r.Range(14, 20); k <= n; k++ {
+		key := "p/a"
+		if in.Key == "p/" && r.Bool(1, 4) {
+			key = "p/b"
+		}
+		in.Writes = append(in.Writes, c19Write{Subs: []c19Sub{{Op: "put", K: key, V: fmt.Sprintf("v%d", k)}}, PauseUs: r.PickInt(8000, 12000, 15000)})
+	}
+	in.HoldAfter = 1
+	in.HoldMs = 8*in.PullMs + r.PickInt(100, 200)
+	return in
+}
+
 func c19Gen(r *verifh.Rand, i int) interface{} {
 	in := c19Input{}
 	in.Mode = r.Pick("prefix", "prefix", "rawprefix", "sync", "raw")
@@ -500,6 +632,12 @@ func c19Gen(r *verifh.Rand, i int) interface{} {
 	}
 	if r.Bool(1, den) {
 		return c19GenOutage(r)
+	}
+	if r.Bool(1, den) {
+		return c19GenCompact(r)
+	}
+	if r.Bool(1, 20) {
+		return c19GenHold(r)
 	}
 	return in
 }
@@ -762,5 +900,3 @@ func TestVerifC19Ops(t *testing.T) {
 	}()
 	verifh.Run(t, c19OpsGen, c19OpsExec, 300*time.Second)
 }
-
-var _ = clientv3.WithPrefix
